@@ -17,6 +17,10 @@ def handle (op real : String) : Verdict := Id.run do
     if t.startsWith "H:" then continue
     if t == "+" then
       listed := listed ++ [total]; total := total + 1
+    else if t == "c" then
+      -- a node joins and the announcements go on for several windows: the refresh asked for by the first has happened
+      listed := listed ++ [total]; total := total + 1
+      s := step s (.refresh 0 listed)
     else if t.startsWith "-" then
       let i := (t.drop 1).toString.toNat?.getD 0
       if i > 0 ∧ i < total then listed := listed.erase i
